@@ -53,9 +53,12 @@ def origin(rng):
     return rng.choice(ORIGINS) if rng.random() < 0.85 else rng.randrange(65536)
 
 
-def gen_pair(rng, nops, profile, hostile=False, nmsg=8):
+def gen_pair(rng, nops, profile, hostile=False, nmsg=8, bigwin=False):
     oa, ob = origin(rng), origin(rng)
     ca, cb = gen_conf(rng), gen_conf(rng)
+    if bigwin:
+        ca[4], cb[4] = rng.choice([8, 16]), rng.choice([8, 16])
+        ca[2], cb[2] = 5, 5
     w = PROFILES[profile]
     t = 0
     nsub = {"A": 0, "B": 0}
@@ -126,6 +129,27 @@ def enum_cases(depth):
                 else:
                     ops.append("%s:%d" % (a, t))
             out.append("pair %d %d %s %s %s" % (oa, ob, ca, cb, " ".join(ops)))
+    return out
+
+
+def gen_burst(rng, n):
+    """open the congestion window with acknowledged traffic, then submit a burst: in-flight reaches the window"""
+    out = []
+    for i in range(n):
+        w = rng.choice([2, 3, 4, 8, 16, 0])
+        oa, ob = origin(rng), origin(rng)
+        t, ops, k = 0, [], 0
+        for _ in range(rng.randrange(1, 20)):
+            ops += ["sA:%d:0:%d" % (100 + k, t), "dB:0:%d" % (t + 5), "tB:%d" % (t + 70), "dA:0:%d" % (t + 75)]
+            k += 1
+            t += 100
+        for _ in range(rng.randrange(2, 22)):
+            ops.append("sA:%d:%d:%d" % (100 + k, rng.choice([0, 9]), t))
+            k += 1
+        for _ in range(rng.randrange(0, 30)):
+            t += rng.choice([5, 30, 400])
+            ops.append(rng.choice(["dB:0:%d", "dB:0:%d", "tB:%d", "dA:0:%d", "tA:%d", "uB:1:%d", "dB:2:%d"]) % t)
+        out.append("pair %d %d 1000 8000 5 50 %d 1000 8000 5 50 4 %s" % (oa, ob, w, " ".join(ops)))
     return out
 
 
@@ -228,7 +252,9 @@ def gen_cases(rng, tier, budget):
         cases.append(gen_pair(rng, rng.choice([8, 20, 40, 80]), prof, hostile=(i % 7 == 0)))
     # long runs crossing the 16-bit wrap with many messages
     for i in range(40 if quick else 300):
-        cases.append(gen_pair(rng, 400, profs[i % len(profs)], nmsg=60))
+        cases.append(gen_pair(rng, 400, ["reliable", "dup", "mixed"][i % 3] if i % 2 else profs[i % len(profs)],
+                              nmsg=60, bigwin=(i % 2 == 1)))
+    cases += gen_burst(rng, 150 if quick else 2000)
     cases += enum_cases(4 if quick else 5)
     return cases
 
@@ -296,8 +322,20 @@ def monitor(case, line):
     subs = {"A": [], "B": []}
     tx = {"A": {}, "B": {}}      # transmissions per body since the last dead callback
     ever = {"A": set(), "B": set()}
+    zlbdl = {"A": "z", "B": "z"}   # ZLB deadline of each side after its previous op
+    lastq = {"A": 0, "B": 0}
     for op, tok in zip(c["ops"], toks):
         x = op[1]
+        if op[0] == "t" and tok.startswith("T") and zlbdl[x] != "z" and int(op.split(":")[1]) >= int(zlbdl[x]):
+            inner = tok.split("[", 1)[1].split("]")[0]
+            if not inner and not tok.split("/")[0].endswith("!"):
+                return "side %s ticked at %s, at/after its ZLB deadline %s, and sent nothing: the owed acknowledgement is lost" % (
+                    x, op.split(":")[1], zlbdl[x])
+        if "/" in tok:
+            st0 = tok.rsplit("/", 1)[1].split(",")
+            if len(st0) >= 7:
+                zlbdl[x] = st0[6]
+                lastq[x] = int(st0[4])
         if op[0] == "s":
             subs[x].append(op.split(":")[1])
         if "[" in tok and "]" in tok:
@@ -330,6 +368,10 @@ def monitor(case, line):
         for i in lst(kv.get("ack" + x, "")):
             if int(i) < len(subs[x]) and subs[x][int(i)] not in ever[x]:
                 return "side %s treats its message #%s (%s) as acknowledged although it was never transmitted" % (x, i, subs[x][int(i)])
+    for x in "AB":
+        if kv.get("dead" + x) == "0" and len(lst(kv.get("ack" + x, ""))) + lastq[x] != len(subs[x]):
+            return "side %s: %d submissions, %d acknowledged, %d still queued, never dead: a message left the queue with neither an acknowledgement nor the dead callback" % (
+                x, len(subs[x]), len(lst(kv.get("ack" + x, ""))), lastq[x])
     if any(op[0] == "j" for op in c["ops"]):
         return None
     sub = {"A": [o.split(":")[1] for o in c["ops"] if o.startswith("sA")],
